@@ -23,6 +23,9 @@ type Cfg struct {
 	Rule    model.BreakerRule `json:"rule"`
 	Prelude int               `json:"prelude"`  // 0 fresh closed, 1 closed near trip, 2 open near deadline, 3 half-open with a held probe
 	Delta   uint64            `json:"delta_ms"` // distance to the deadline at the start of the concurrent section (prelude 2)
+	// Counting: a breaker that never trips (huge threshold) over a short window of small buckets, ticks of a few
+	// milliseconds: completions race with bucket rollovers; at quiescence none of them may be missing from the window
+	Counting bool `json:"counting,omitempty"`
 }
 
 type P struct{}
@@ -34,7 +37,7 @@ func (P) Engine() string { return "E2" }
 
 func (P) Describe() harness.Description {
 	return harness.Description{
-		MustHit: []string{"half_open_timing_checked", "probe_exclusivity_checked", "open_period_checked", "transition_overlaps_other_caller"},
+		MustHit: []string{"window_counts_checked_after_concurrent_rollover", "half_open_timing_checked", "probe_exclusivity_checked", "open_period_checked", "transition_overlaps_other_caller"},
 		Level:   "exploration",
 		Rule: "case = (one breaker of any strategy with small minimum amount and retry timeout, sequential prelude leaving it fresh / near trip / open just before its deadline / half-open with a held probe; 2-3 callers with 1-4 Entry / complete operations each; tick plan around the retry timeout). The scheduler interleaves at every atomic access of TryPass, OnRequestComplete and the transition helpers. " +
 			"History oracles stamped with event sequence numbers: (a) the multiset of listener events is a legal path from the prelude state to the final state (each transition once, correct previous state); (b) every Open->HalfOpen happens >= retry timeout after the invocation of the earliest call that could have opened the breaker for that open period; (c) with no probe number, after a passage to half-open no other request invoked afterwards is admitted and returns before the call that emits the next transition is invoked; (d) no request other than the probe is admitted wholly inside a certainly-open period. " +
@@ -60,6 +63,16 @@ func (P) Gen(rng *sim.Rng, tier string) *harness.Case {
 		r.Threshold = []float64{0.5, 1.0, 0.2}[rng.Intn(3)]
 	default:
 		r.Threshold = float64(rng.Range(1, 3))
+	}
+	if rng.Chance(0.25) {
+		cfg.Counting, cfg.Prelude = true, 0
+		r.Strategy = []int{model.ErrCount, model.ErrRatio}[rng.Intn(2)]
+		r.Threshold, r.MinReq = 1000, 1
+		if r.Strategy == model.ErrRatio {
+			r.Threshold, r.MinReq = 1.0, 1000000
+		}
+		r.StatMs = []uint64{20, 40, 100}[rng.Intn(3)]
+		r.Buckets = []uint32{2, 4, 5}[rng.Intn(3)]
 	}
 	cfg.Rule = r
 	cfg.Delta = []uint64{0, 1, 2, r.RetryMs / 2}[rng.Intn(4)]
@@ -90,6 +103,13 @@ func (P) Gen(rng *sim.Rng, tier string) *harness.Case {
 	for i, n := 0, rng.Range(0, 5); i < n; i++ {
 		ticks = append(ticks, []uint64{1, 1, 2, r.RetryMs - 1, r.RetryMs, r.RetryMs + 1, cfg.Delta}[rng.Intn(7)]*1e6)
 	}
+	if cfg.Counting {
+		ticks = nil
+		L := r.StatMs / uint64(r.Buckets)
+		for i, n := 0, rng.Range(1, 6); i < n; i++ {
+			ticks = append(ticks, []uint64{1, 2, L - 1, L, L + 1, L / 2}[rng.Intn(6)]*1e6)
+		}
+	}
 	c := &harness.Case{Cfg: harness.MustJSON(cfg), Callers: callers}
 	c.Sched = harness.GenSched(rng, ticks, 400*k)
 	c.Sched.MaxSteps = 60000
@@ -110,6 +130,8 @@ type call struct {
 	kind     string // entry | complete
 	inv, ret uint64
 	tInv     uint64
+	tRet     uint64
+	bad      bool // complete: with an error
 	admitted bool
 	done     bool
 }
@@ -250,6 +272,7 @@ func (P) Exec(c *harness.Case) *harness.Outcome {
 			calls[task] = append(calls[task], cl)
 			f(cl)
 			cl.ret = sim.NextSeq()
+			cl.tRet = clk.NowMs()
 			cl.done = true
 			lis.cur[task] = nil
 		}
@@ -263,7 +286,7 @@ func (P) Exec(c *harness.Case) *harness.Outcome {
 				})
 				if e != nil {
 					if op.K == "rd" {
-						do("complete", func(*call) { complete(e, op.F) })
+						do("complete", func(cl *call) { cl.bad = op.F; complete(e, op.F) })
 					} else {
 						held = append(held, e)
 					}
@@ -272,7 +295,7 @@ func (P) Exec(c *harness.Case) *harness.Outcome {
 				if op.E >= 0 && op.E < len(held) && held[op.E] != nil {
 					e := held[op.E]
 					held[op.E] = nil
-					do("complete", func(*call) { complete(e, op.F) })
+					do("complete", func(cl *call) { cl.bad = op.F; complete(e, op.F) })
 				}
 			}
 		}
@@ -286,6 +309,40 @@ func (P) Exec(c *harness.Case) *harness.Outcome {
 		return o
 	}
 	evs := lis.log[nPre:]
+	if cfg.Counting && len(evs) == 0 {
+		// the breaker stayed closed: every completion was recorded into the window and none may be missing
+		L := r.StatMs / uint64(r.Buckets)
+		T := clk.NowMs()
+		lo := T - T%L - (uint64(r.Buckets)-1)*L
+		var wantTotal, wantBad uint64
+		certain := true
+		for _, l := range calls {
+			for _, cl := range l {
+				if cl.kind != "complete" {
+					continue
+				}
+				b1, b2 := cl.tInv-cl.tInv%L, cl.tRet-cl.tRet%L
+				if b1 != b2 {
+					certain = false // a tick crossed a bucket boundary during the call: either bucket is right
+				}
+				if b1 >= lo {
+					wantTotal++
+					if cl.bad {
+						wantBad++
+					}
+				}
+			}
+		}
+		if bs := cb.VerifBreakersOf(res); certain && len(bs) == 1 {
+			if total, bad, ok := cb.VerifBreakerWindow(bs[0]); ok {
+				o.Probe("window_counts_checked_after_concurrent_rollover")
+				if total != wantTotal || bad != wantBad {
+					o.Fail("C12.completion-lost", 0, "the breaker stayed closed; its window [%d,%d] holds total=%d failed=%d, the completions recorded into it are total=%d failed=%d (a completion that raced with a bucket rollover was lost or counted into a discarded counter)", lo, T, total, bad, wantTotal, wantBad)
+					return o
+				}
+			}
+		}
+	}
 	if os.Getenv("C12_DEBUG") != "" {
 		for _, e := range evs {
 			fmt.Printf("EV seq=%d task=%d %s->%s t=%d\n", e.seq, e.task, model.StateName[e.from], model.StateName[e.to], e.t)
